@@ -838,6 +838,50 @@ fn scripted_blocks(r: &mut Rng, sess: &mut Session, out: &mut Out, ctx: &mut Ctx
     run_cmd("diff p0 - cur", sess, out, ctx);
 }
 
+/// scripted family: the patch log is kept across two mutating calls; the first EXPOSES a hidden object (an
+/// object and a winning scalar conflict on one key, and a replica that only knew the scalar deletes it), the
+/// second brings in a change of a NEW actor that sorts before / between / after the existing ones (the actor
+/// table shifts under the pending log)
+fn scripted_expose_then_new_actor(r: &mut Rng, sess: &mut Session, out: &mut Out, ctx: &mut Ctx) {
+    out.count("cases_scripted_expose_new_actor");
+    let creator = vec![0x70u8, r.next() as u8];
+    let other = vec![0x60u8, r.next() as u8];
+    let tracked = vec![0x50u8, r.next() as u8];
+    let newcomer = vec![[0x10u8, 0x65, 0x75, 0x90][r.below(4) as usize], r.next() as u8];
+    run_cmd(&format!("crdt.new r0 cp {}", hex::encode(&creator)), sess, out, ctx);
+    run_cmd("crdt.put r0 _ m62 i0", sess, out, ctx);
+    run_cmd("crdt.commit r0", sess, out, ctx);
+    run_cmd(&format!("crdt.fork r0 rb {}", hex::encode(&other)), sess, out, ctx);
+    run_cmd(&format!("crdt.fork r0 rn {}", hex::encode(&newcomer)), sess, out, ctx);
+    run_cmd(&format!("crdt.patch.track r0 p0 {}", hex::encode(&tracked)), sess, out, ctx);
+    run_cmd("incr p0", sess, out, ctx);
+    // the object (creator) and, concurrently, a scalar with a greater op counter (rb)
+    let res = exec_line(sess, "crdt.putobj r0 _ m6b M", out);
+    let o = res[0].strip_prefix("ok ").unwrap_or("_").to_string();
+    run_cmd(&format!("crdt.put r0 {} m78 i1", o), sess, out, ctx);
+    run_cmd(&format!("crdt.put r0 {} m79 s68656c6c6f", o), sess, out, ctx);
+    if r.chance(1, 2) { let res = exec_line(sess, &format!("crdt.putobj r0 {} m7a L", o), out); if let Some(l) = res[0].strip_prefix("ok ") { let l = l.to_string(); run_cmd(&format!("crdt.ins r0 {} 0 i7", l), sess, out, ctx); } }
+    run_cmd("crdt.commit r0", sess, out, ctx);
+    for i in 0..r.range(3, 6) { run_cmd(&format!("crdt.put rb _ m7a{:02x} i{}", i, i), sess, out, ctx); }
+    run_cmd("crdt.put rb _ m6b s77696e6e6572", sess, out, ctx);
+    run_cmd("crdt.commit rb", sess, out, ctx);
+    let n1 = ctx.all_changes.len();
+    run_cmd(&format!("deliver p0 {}", (1..n1).map(|x| x.to_string()).collect::<Vec<_>>().join(",")), sess, out, ctx);
+    run_cmd("incr p0", sess, out, ctx);
+    // rb, who only knows its scalar, deletes the key: the hidden object becomes visible
+    run_cmd("crdt.del rb _ m6b", sess, out, ctx);
+    run_cmd("crdt.commit rb", sess, out, ctx);
+    run_cmd("crdt.put rn _ m6e i5", sess, out, ctx);
+    run_cmd("crdt.commit rn", sess, out, ctx);
+    let n2 = ctx.all_changes.len();
+    if n2 >= n1 + 2 {
+        run_cmd(&format!("deliver p0 {}", n1), sess, out, ctx);          // exposes the object: log kept
+        run_cmd(&format!("deliver p0 {}", n1 + 1), sess, out, ctx);      // the newcomer's change: actor table shifts
+        run_cmd("incr p0", sess, out, ctx);
+    }
+    run_cmd("diff p0 - cur", sess, out, ctx);
+}
+
 fn idxs(r: &mut Rng, n: usize, k: usize) -> String {
     (0..k).map(|_| r.below(n as u64).to_string()).collect::<Vec<_>>().join(",")
 }
@@ -854,6 +898,7 @@ pub fn generate(r: &mut Rng, opts: &BTreeMap<String, String>, sess: &mut Session
         return;
     }
     if r.chance(1, 5) { return scripted_batch(r, sess, out, &mut ctx); }
+    if r.chance(1, 10) { return scripted_expose_then_new_actor(r, sess, out, &mut ctx); }
     if cfg!(feature = "e_richtext") && r.chance(1, 6) { return scripted_blocks(r, sess, out, &mut ctx); }
     let enc = ["cp", "utf8", "utf16"][r.below(3) as usize];
     let mut actors: Vec<Vec<u8>> = (0..10).map(|i| vec![0x10 * (10 - i as u8) + r.below(8) as u8, r.next() as u8]).collect();
@@ -930,7 +975,8 @@ pub fn generate(r: &mut Rng, opts: &BTreeMap<String, String>, sess: &mut Session
             }
             _ => { let f = focused && r.chance(4, 5); local_tx(r, sess, out, &mut ctx, &who, f) }
         }
-        if is_tracked { run_cmd(&format!("incr {}", who), sess, out, &mut ctx); }
+        // (one time in four the patch log is left to accumulate over the next mutating call as well)
+        if is_tracked && !r.chance(1, 4) { run_cmd(&format!("incr {}", who), sess, out, &mut ctx); } else if is_tracked { out.count("incr_deferred"); }
     }
     // rich text at the end of the history: marks and puts on text indexes (own transactions)
     if with_marks {
